@@ -330,6 +330,8 @@ def check_property(prop_id, tier, seed, replay=None):
     cfg = P.PROPS[prop_id]
     t0 = time.time()
     os.makedirs(os.path.join(BUILD, prop_id), exist_ok=True)
+    for stale in glob.glob(os.path.join(BUILD, prop_id, "race-*.txt")):
+        os.remove(stale)
     jobs = [j for j in cfg["jobs"] if tier in j.get("tiers", ("quick", "thorough"))]
     replay_case = None
     if replay:
@@ -444,7 +446,7 @@ def setup():
     # warm the build cache: compile every harness test binary once (no tests run)
     seen = set()
     warm = []
-    for pid, cfg in P.PROPS.items():
+    for pid, cfg in P.CLAIMED.items():
         for job in cfg["jobs"]:
             key = (job["module"], job["pkg"], bool(job.get("race")))
             if key in seen:
@@ -495,7 +497,7 @@ def main(argv):
             replay = argv[i + 1]
             i += 1
         elif a == "--all":
-            ids = sorted(P.PROPS)
+            ids = sorted(P.CLAIMED)
         else:
             ids.append(a)
         i += 1
